@@ -48,6 +48,7 @@ func gen(e *vlib.Env) gcw.Program {
 	}
 	// Message.UUID is not an identity: a quarter of the programs use empty or equal UUIDs (see gcw.Program.UUIDs)
 	p.UUIDs = []string{"", "", "empty", "same"}[vlib.HashStr(e.ID())%4]
+	p.MsgCtx = vlib.HashStr(e.ID()+"/msgctx")%3 == 0 // a third of the programs publish messages that carry (cancelled, soon cancelled, live) contexts
 	p.EditAfterPublish = r.Chance(0.3)
 	np := r.Range(1, 4)
 	for i := 0; i < np; i++ {
